@@ -84,8 +84,15 @@ def evaluate(ctx, cases):
         if c['th'] is not None:
             exp_req = ('objs.expand ' + _kv(c['th']), dict(bm.thresholds))
         nfit = 0; edited_before_fit = False; last_sig = None
+        def attr_check(where):
+            if bm.df_features is not None:
+                for col in list(bm.df_features.columns)[:4] + list(bm.df_features.columns)[-2:]:
+                    if not np.array_equal(np.asarray(getattr(bm, col)), bm.df_features[col].values, equal_nan=True):
+                        fail('after %s attribute %s is not the column of the current table' % (where, col)); return
         for op in c['ops']:
             if not ok: break
+            if op[0] in ('fit', 'edges', 'load'):
+                attr_check('the operations before ' + repr(op))      # read (and possibly cache) before the table is replaced
             try:
                 if op[0] == 'fit':
                     held = copy.deepcopy((bm.thresholds, bm.burst_kwargs, bm.find_extrema_kwargs))
@@ -134,6 +141,8 @@ def evaluate(ctx, cases):
                     if bm.df_features is not df: fail('load did not store the given table')
             except Exception as e:
                 fail('operation %r raised %s: %s' % (op, type(e).__name__, str(e)[:80]))
+            if ok and op[0] in ('fit', 'edges', 'load'):
+                attr_check(repr(op))
         results.append((ok, corr, info, exp_req))
         ctx.hist('fits', min(nfit, 4))
     # driver comparisons
